@@ -175,6 +175,8 @@ func c18Scenarios() []c18Scenario {
 		{Name: "multi-module", Setup: []Op{A("fh")}, Test: A("fg"), Follow: follow},
 		// the change document starts with a bare element (<mode operation="delete"/>) followed by an update
 		{Name: "bare-delete-first", Setup: []Op{A("c18a")}, Test: A("c18b"), Follow: follow},
+		// a configured value spells "EOF": an rpc-error reply that quotes the request must not be taken for a dead connection
+		{Name: "eof-in-payload", Setup: nil, Test: A("c18e"), Follow: follow},
 	}
 }
 
@@ -230,6 +232,7 @@ func runC18() int {
 	var samples []any
 	frags := CoreFragments()
 	frags["c18a"] = &Fragment{Name: "c18a", Leaves: []Leaf{leaf("A1", "mode", "a"), leaf("r1", "sys", "hostname")}}
+	frags["c18e"] = &Fragment{Name: "c18e", Leaves: []Leaf{leaf("uplink EOF", "if", e1, "descr")}}
 	frags["c18b"] = &Fragment{Name: "c18b", Leaves: []Leaf{leaf("r9", "sys", "hostname")}}
 	ch := make(chan job, 64)
 	var wg sync.WaitGroup
